@@ -19,7 +19,7 @@ open Ford Ford.Access
     (names declared once, one access-spec per entity, procedures after CONTAINS), PROTECTED is not involved,
     and the entity is not in the class of the known defect `LateDefault` (no access-spec of its own and a bare
     `private` *after* the declaration). -/
-theorem access_correct_partial (pre post : List Stmt) (d : Stmt) (c : Cat) (n : Str) (attrs : List Attr)
+theorem access_correct_partial (v : Variant) (pre post : List Stmt) (d : Stmt) (c : Cat) (n : Str) (attrs : List Attr)
     (hx : (c, n, attrs) ∈ declares d)
     (hnames : NamesOnce (pre ++ d :: post))
     (hbare : BareLegal (pre ++ d :: post))
@@ -27,15 +27,16 @@ theorem access_correct_partial (pre post : List Stmt) (d : Stmt) (c : Cat) (n : 
     (hone : OneAccessSpec (pre ++ d :: post) attrs n)
     (hprot : hasProtected (pre ++ d :: post) attrs n = false)
     (hlate : ¬ LateDefault (pre ++ d :: post) post attrs n) :
-    ∃ e ∈ (runUnit false (pre ++ d :: post)).ents, e.cat = c ∧ e.name = n ∧
+    ∃ e ∈ (runUnit v false (pre ++ d :: post)).ents, e.cat = c ∧ e.name = n ∧
       e.perm = fortranAccess (pre ++ d :: post) attrs n := by
   have hinc : isProc d = true → (false || hasContains pre) = true := by
     intro h; simpa [hasContains] using hproc h
   obtain ⟨e0, he0, hc0, hn0, hp0⟩ :=
     mkEnts_declares (lastBare (init false).perm pre) (false || hasContains pre) d hinc (c, n, attrs) hx
   simp only at hc0 hn0 hp0
-  refine ⟨upd (stmtEntries (pre ++ d :: post)) e0, ?_, hc0, hn0, ?_⟩
-  · rw [runUnit_ents false _ hnames, entsFrom_append]
+  refine ⟨upd (stmtEntries (pre ++ d :: post)) (specUpd v.specLoop (stmtEntries (pre ++ d :: post)) e0), ?_,
+    by simpa using hc0, by simpa using hn0, ?_⟩
+  · rw [runUnit_ents v false _ hnames, entsFrom_append]
     exact List.mem_map.2 ⟨e0, List.mem_append_right _ (mkEnts_sub_entsFrom _ _ d post e0 he0), rfl⟩
   · obtain ⟨w1u, w1r, w2u, w2r⟩ := words_ok c
     have hprot' : Attr.acc .prot ∉ attrs ∧ Attr.acc .prot ∉ entriesFor n (stmtEntries (pre ++ d :: post)) := by
@@ -43,7 +44,7 @@ theorem access_correct_partial (pre post : List Stmt) (d : Stmt) (c : Cat) (n : 
       exact ⟨hprot.1, fun h => hprot.2 ((mem_entriesFor _ _ _).1 h)⟩
     have h2 := two_loops (declWords c) (wordsFor c) w1u w1r w2u w2r attrs
       (entriesFor n (stmtEntries (pre ++ d :: post))) (lastBare (init false).perm pre) hone hprot'.1 hprot'.2
-    simp only [upd, hc0, hn0, hp0, applyAttrs_eq_declPerm, h2]
+    simp only [upd, specUpd_cat, specUpd_name, specUpd_perm, hc0, hn0, hp0, applyAttrs_eq_declPerm, h2]
     simp only [fortranAccess, hprot, stmtAccess_eq]
     cases hX : (explicitOf attrs).orElse (fun _ => explicitOf (entriesFor n (stmtEntries (pre ++ d :: post)))) with
     | some q =>
@@ -77,58 +78,62 @@ example : ¬ LateDefault [Stmt.var ["v".toList] [.acc .pub], .bare .priv] [.bare
 
 /-- **Known defect (late bare `private`).**  `integer :: v` followed by a bare `private`: FORD's mechanism
     reports `v` public, Fortran says private.  The same for a type and an abstract interface. -/
-theorem late_private_witness :
-    ((runUnit false [.var ["v".toList] [], .typeDef "t".toList [] [], .iface .abstract [] ["a".toList], .bare .priv]).ents.map
+theorem late_private_witness (v : Variant) :
+    ((runUnit v false [.var ["v".toList] [], .typeDef "t".toList [] [], .iface .abstract [] ["a".toList] [], .bare .priv]).ents.map
         (fun e => (e.name, e.perm)) = [("v".toList, .pub), ("t".toList, .pub), ("a".toList, .pub)]) ∧
-    fortranAccess [.var ["v".toList] [], .typeDef "t".toList [] [], .iface .abstract [] ["a".toList], .bare .priv] [] "v".toList
+    fortranAccess [.var ["v".toList] [], .typeDef "t".toList [] [], .iface .abstract [] ["a".toList] [], .bare .priv] [] "v".toList
       = .priv := by
-  decide
+  rcases v with ⟨_ | _, _ | _, _ | _⟩ <;> decide
 
 /-- **Procedures are never hit by that defect**: module procedures are constructed after CONTAINS, i.e. after
     the whole specification part, so for them the theorem holds without the exclusion whenever the bare
     statement stands where Fortran requires it (in the specification part, before CONTAINS). -/
-theorem procedure_access_correct (pre post : List Stmt) (f : Bool) (n : Str)
+theorem procedure_access_correct (v : Variant) (pre post : List Stmt) (f : Bool) (n : Str)
     (hnames : NamesOnce (pre ++ .proc f n :: post))
     (hbare : BareLegal (pre ++ .proc f n :: post))
     (hproc : Stmt.contains ∈ pre)
     (hspec : Stmt.bare .priv ∉ post)
     (hone : OneAccessSpec (pre ++ .proc f n :: post) [] n)
     (hprot : hasProtected (pre ++ .proc f n :: post) [] n = false) :
-    ∃ e ∈ (runUnit false (pre ++ .proc f n :: post)).ents, e.cat = (if f then .func else .sub) ∧ e.name = n ∧
+    ∃ e ∈ (runUnit v false (pre ++ .proc f n :: post)).ents, e.cat = (if f then .func else .sub) ∧ e.name = n ∧
       e.perm = fortranAccess (pre ++ .proc f n :: post) [] n :=
-  access_correct_partial pre post (.proc f n) _ n [] (by simp [declares]) hnames hbare (fun _ => hproc) hone hprot
+  access_correct_partial v pre post (.proc f n) _ n [] (by simp [declares]) hnames hbare (fun _ => hproc) hone hprot
     (fun h => hspec h.1)
 
 /-- **Wherever the access statement stands.**  Moving an access statement across any block of other
     statements (declarations, bare statements, CONTAINS, ...) changes nothing in the result - permissions of all
     entities, components, bindings and `public_list`.  True for modules and submodules. -/
-theorem access_statement_position_irrelevant (sub : Bool) (pre mid post : List Stmt) (a : Attr) (ns : List Str)
+theorem access_statement_position_irrelevant (v : Variant) (sub : Bool) (pre mid post : List Stmt) (a : Attr) (ns : List Str)
     (hmid : ∀ x ∈ mid, isAccess x = false) :
-    runUnit sub (pre ++ .access a ns :: (mid ++ post)) = runUnit sub (pre ++ (mid ++ .access a ns :: post)) := by
+    runUnit v sub (pre ++ .access a ns :: (mid ++ post)) = runUnit v sub (pre ++ (mid ++ .access a ns :: post)) := by
   simp only [runUnit, List.foldl_append, List.foldl_cons]
   rw [foldl_step_comm a ns mid _ hmid]
 
 /-- **Submodules.**  In a submodule (which cannot contain access statements or access attributes) every entity
     - variable, type, procedure, interface - is private. -/
-theorem submodule_entities_private (stmts : List Stmt) (h : AccessFree stmts) :
-    ∀ e ∈ (runUnit true stmts).ents, e.perm = .priv := by
+theorem submodule_entities_private (v : Variant) (stmts : List Stmt) (h : AccessFree stmts) :
+    ∀ e ∈ (runUnit v true stmts).ents, e.perm = .priv := by
   have hs := foldl_step stmts (init true) rfl
-  simp only [runUnit, finish]
+  simp only [runUnit, finish, map_readKids]
   rw [hs.1, hs.2]
   simp only [init, List.nil_append]
-  rw [passes_noacc _ _ _ (stmtEntries_accessFree stmts h)]
-  exact ctorPass_perm .priv _ (entsFrom_accessFree stmts _ false h)
+  rw [passesV_noacc v.del _ _ (stmtEntries_accessFree stmts h)]
+  apply ctorPass_perm .priv
+  intro e he
+  obtain ⟨e0, he0, rfl⟩ := List.mem_map.1 he
+  rw [specUpd_perm]
+  exact entsFrom_accessFree stmts _ false h e0 he0
 
 /-- **`protected` is recorded.**  A variable declared with the PROTECTED attribute and no access-spec, not
     named in any attribute statement, in a module whose default is public, is reported `protected`,
     which is what the specification says. -/
-theorem protected_recorded (pre post : List Stmt) (ns : List Str) (attrs : List Attr) (n : Str) (hn : n ∈ ns)
+theorem protected_recorded (v : Variant) (pre post : List Stmt) (ns : List Str) (attrs : List Attr) (n : Str) (hn : n ∈ ns)
     (hnames : NamesOnce (pre ++ .var ns attrs :: post))
     (hbare : BareLegal (pre ++ .var ns attrs :: post))
     (hpub : Stmt.bare .priv ∉ pre ++ .var ns attrs :: post)
     (hattr : Attr.acc .prot ∈ attrs) (hno : attrs.filterMap accessWord = [])
     (hstmt : stmtWords (pre ++ .var ns attrs :: post) n = []) :
-    (∃ e ∈ (runUnit false (pre ++ .var ns attrs :: post)).ents, e.cat = .var ∧ e.name = n ∧ e.perm = .prot) ∧
+    (∃ e ∈ (runUnit v false (pre ++ .var ns attrs :: post)).ents, e.cat = .var ∧ e.name = n ∧ e.perm = .prot) ∧
     fortranAccess (pre ++ .var ns attrs :: post) attrs n = .prot := by
   have hpost : Stmt.bare .priv ∉ post := fun h => hpub (by simp [h])
   have hdef := default_at_decl pre post (.var ns attrs) (by intro q h; cases h) hbare hpost
@@ -142,11 +147,12 @@ theorem protected_recorded (pre post : List Stmt) (ns : List Str) (attrs : List 
       mkEnts_declares (lastBare (init false).perm pre) (false || hasContains pre) (.var ns attrs)
         (by intro h; cases h) (.var, n, attrs) (by simp only [declares, List.mem_map]; exact ⟨n, hn, rfl⟩)
     simp only at hc0 hn0 hp0
-    refine ⟨upd (stmtEntries (pre ++ .var ns attrs :: post)) e0, ?_, hc0, hn0, ?_⟩
-    · rw [runUnit_ents false _ hnames, entsFrom_append]
+    refine ⟨upd (stmtEntries (pre ++ .var ns attrs :: post))
+      (specUpd v.specLoop (stmtEntries (pre ++ .var ns attrs :: post)) e0), ?_, by simpa using hc0, by simpa using hn0, ?_⟩
+    · rw [runUnit_ents v false _ hnames, entsFrom_append]
       exact List.mem_map.2 ⟨e0, List.mem_append_right _ (mkEnts_sub_entsFrom _ _ _ post e0 he0), rfl⟩
     · have hst : entriesFor n (stmtEntries (pre ++ .var ns attrs :: post)) = [] := hstmt
-      simp only [upd, hc0, hn0, hp0, applyAttrs_eq_declPerm, hst, declPerm]
+      simp only [upd, specUpd_cat, specUpd_name, specUpd_perm, hc0, hn0, hp0, applyAttrs_eq_declPerm, hst, declPerm]
       exact declPerm_prot _ (by decide) attrs _ hno hattr
   · have hst : entriesFor n (stmtEntries (pre ++ .var ns attrs :: post)) = [] := hstmt
     have h1 : explicitOf attrs = none := by rw [explicitOf_eq_head, hno]; rfl
@@ -157,20 +163,252 @@ theorem protected_recorded (pre post : List Stmt) (ns : List Str) (attrs : List 
 
 /-- **Known defect (PROTECTED overrides private).**  In a default-private module `integer, protected :: v` is
     reported `protected` (and hence displayed by default) although it is private. -/
-theorem protected_private_witness :
-    ((runUnit false [.bare .priv, .var ["v".toList] [.acc .prot]]).ents.map (fun e => (e.name, e.perm))
+theorem protected_private_witness (v : Variant) :
+    ((runUnit v false [.bare .priv, .var ["v".toList] [.acc .prot]]).ents.map (fun e => (e.name, e.perm))
         = [("v".toList, .prot)]) ∧
     fortranAccess [.bare .priv, .var ["v".toList] [.acc .prot]] [.acc .prot] "v".toList = .priv := by
-  decide
+  rcases v with ⟨_ | _, _ | _, _ | _⟩ <;> decide
 
 /-- **Known defect (PROTECTED lost).**  `integer, protected :: v` plus `public :: v` is reported `public`:
     the PROTECTED attribute is no longer recorded. -/
-theorem protected_lost_witness :
-    ((runUnit false [.var ["v".toList] [.acc .prot], .access (.acc .pub) ["v".toList]]).ents.map
+theorem protected_lost_witness (v : Variant) :
+    ((runUnit v false [.var ["v".toList] [.acc .prot], .access (.acc .pub) ["v".toList]]).ents.map
         (fun e => (e.name, e.perm)) = [("v".toList, .pub)]) ∧
     fortranAccess [.var ["v".toList] [.acc .prot], .access (.acc .pub) ["v".toList]] [.acc .prot] "v".toList = .prot := by
+  rcases v with ⟨_ | _, _ | _, _ | _⟩ <;> decide
+
+
+/-- **Specific procedures of a generic interface.**  A procedure declared by an interface body inside a generic
+    interface block `interface g` is a module entity of its own: its accessibility is the access statement naming
+    *it*, else the module default - in particular an access statement that names only the generic `g` (or anything
+    else) does not change it, and the getter `FortranProcedure.permission` does not redirect it to the generic
+    (`readGeneric = false` in the generated truth table).  For every specification part
+    `pre ++ interface g :: post`, every variant, whatever the other names are (constructor idiom included).
+    Exclusions, both explicit: the late-bare-private class, and - only for the code without the loop over the
+    interface bodies (`specLoop = false`, the code as it is) - the specific procedure being named in an access
+    statement (known defect `C04-specific-access-statement-ignored`, witness below).  With the candidate repair
+    (`specLoop = true`) that second exclusion is gone. -/
+theorem specific_procedure_access_partial (v : Variant) (pre post : List Stmt) (g : Str) (ps rs : List Str) (p : Str)
+    (hp : p ∈ ps)
+    (hbare : BareLegal (pre ++ .iface .generic g ps rs :: post))
+    (hone : OneAccessSpec (pre ++ .iface .generic g ps rs :: post) [] p)
+    (hstmt : v.specLoop = false → stmtAccess (pre ++ .iface .generic g ps rs :: post) p = none)
+    (hlate : ¬ LateDefault (pre ++ .iface .generic g ps rs :: post) post [] p)
+    (hprot : hasProtected (pre ++ .iface .generic g ps rs :: post) [] p = false) :
+    ∃ e ∈ (runUnit v false (pre ++ .iface .generic g ps rs :: post)).ents, e.cat = .iface ∧ e.name = g ∧
+      (⟨p, fortranAccess (pre ++ .iface .generic g ps rs :: post) [] p⟩ : Kid) ∈ e.procs := by
+  generalize hS : pre ++ Stmt.iface .generic g ps rs :: post = S at *
+  let P := lastBare (init false).perm pre
+  let e0 : Ent := { cat := .iface, name := g, perm := P, procs := ps.map (fun q => ⟨q, P⟩), refs := rs.map (fun q => ⟨q, P⟩) }
+  have he0 : e0 ∈ entsFrom (init false).perm false S := by
+    rw [← hS, entsFrom_append]
+    apply List.mem_append_right
+    apply mkEnts_sub_entsFrom
+    simp [mkEnts, e0, P, pick, srcInterface]
+  have hs : skel (specUpd v.specLoop (stmtEntries S) e0) ∈ ((runUnit v false S).ents).map skel := by
+    rw [runUnit_skel]; exact List.mem_map.2 ⟨e0, he0, rfl⟩
+  obtain ⟨e, he, hse⟩ := List.mem_map.1 hs
+  simp only [skel, Prod.mk.injEq, specUpd_cat, specUpd_name] at hse
+  refine ⟨e, he, hse.1, hse.2.1, ?_⟩
+  rw [hse.2.2]
+  have hprot' : Attr.acc .prot ∉ entriesFor p (stmtEntries S) := by
+    simp only [hasProtected, Bool.or_eq_false_iff, List.contains_eq_mem, decide_eq_false_iff_not] at hprot
+    exact fun h => hprot.2 ((mem_entriesFor _ _ _).1 h)
+  -- the default in force at the block is the module default, unless the statement case applies
+  have hdefault : stmtAccess S p = none → P = defaultAccess S := by
+    intro hn
+    have hpost : Stmt.bare .priv ∉ post := fun hb => hlate ⟨hb, rfl, hn⟩
+    rw [← hS]
+    exact default_at_decl pre post (.iface .generic g ps rs) (by intro q h; cases h) (by rw [hS]; exact hbare) hpost
+  have hne := defaultAccess_ne_prot S
+  cases hv : v.specLoop with
+  | false =>
+    have hn := hstmt hv
+    simp only [specUpd, Bool.false_eq_true, if_false]
+    apply List.mem_map.2
+    refine ⟨p, hp, ?_⟩
+    simp only [fortranAccess, explicitOf, List.findSome?_nil, Option.orElse_none, hn, Option.getD_none, hprot]
+    rw [hdefault hn]
+    cases hdv : defaultAccess S <;> simp_all
+  | true =>
+    simp only [specUpd, if_true]
+    apply List.mem_map.2
+    refine ⟨⟨p, P⟩, List.mem_map.2 ⟨p, hp, rfl⟩, ?_⟩
+    have h2 := two_loops applyWords applyWords (by decide) (by decide) (by decide) (by decide) []
+      (entriesFor p (stmtEntries S)) P hone (by simp) hprot'
+    simp only [applyAttrs_eq_declPerm]
+    simp only [declPerm] at h2
+    rw [h2]
+    simp only [fortranAccess, hprot, stmtAccess_eq]
+    cases hX : (explicitOf ([] : List Attr)).orElse (fun _ => explicitOf (entriesFor p (stmtEntries S))) with
+    | some q =>
+      have hq : q ≠ .prot := by
+        simp [explicitOf] at hX
+        exact explicitOf_ne_prot hX
+      cases q <;> simp_all
+    | none =>
+      have hn : stmtAccess S p = none := by
+        rw [stmtAccess_eq]; simpa [explicitOf] using hX
+      simp only [Option.getD_none]
+      rw [hdefault hn]
+      cases hdv : defaultAccess S <;> simp_all
+
+/-- Worked instance (the scenario of a regression in the getter): `private :: g` names the generic only; the
+    generic is private, its specific procedure `x` stays public. -/
+example :
+    (runUnit asIs false [.access (.acc .priv) ["g".toList], .iface .generic "g".toList ["x".toList] []]).ents.map
+      (fun e => (e.perm, e.procs)) = [(.priv, [⟨"x".toList, .pub⟩])] := by decide
+
+/-- **Known defect (access statement naming a specific procedure is ignored).**  `private` / `public :: x` /
+    `interface g; subroutine x ...`: `process_attribs` walks the module's own entity lists only, the interface
+    bodies of a generic interface are not among them; `x` keeps the default (private), Fortran says public.
+    With the loop over the interface bodies (`specLoop`) `x` is public. -/
+theorem specific_access_statement_witness (d : DelOrder) (early : Bool) :
+    ((runUnit ⟨d, early, false⟩ false [.bare .priv, .access (.acc .pub) ["x".toList],
+        .iface .generic "g".toList ["x".toList] []]).ents.map (fun e => e.procs) = [[⟨"x".toList, .priv⟩]]) ∧
+    ((runUnit ⟨d, early, true⟩ false [.bare .priv, .access (.acc .pub) ["x".toList],
+        .iface .generic "g".toList ["x".toList] []]).ents.map (fun e => e.procs) = [[⟨"x".toList, .pub⟩]]) ∧
+    fortranAccess [.bare .priv, .access (.acc .pub) ["x".toList], .iface .generic "g".toList ["x".toList] []] [] "x".toList
+      = .pub := by
+  cases d <;> cases early <;> decide
+
+/-- **Same name, same accessibility - repaired deletion order.**  With the repaired `process_attribs` (an
+    `attr_dict` entry is forgotten only when the first loop is over) a derived type `n` and the generic interface
+    of the same name (constructor idiom) get the *same* accessibility from the access statement naming `n`,
+    already when `process_attribs` returns - i.e. in the entity list the export tables (`pub_types`, `pub_procs`)
+    are built from, not only after `correlate`.  For every unit (module or submodule), wherever the three
+    statements stand, whatever else is declared. -/
+theorem constructor_access_statement_repaired (early spec : Bool) (sub : Bool) (stmts : List Stmt) (n : Str)
+    (tattrs : List Attr) (body : List TStmt) (ps rs : List Str) (q : Perm)
+    (hT : Stmt.typeDef n tattrs body ∈ stmts) (hG : Stmt.iface .generic n ps rs ∈ stmts)
+    (hstmt : (entriesFor n (stmtEntries stmts)).filterMap accessWord = [q])
+    (hprot : Attr.acc .prot ∉ entriesFor n (stmtEntries stmts)) :
+    ∃ t ∈ (runUnit ⟨.afterLoop, early, spec⟩ sub stmts).attr, ∃ g ∈ (runUnit ⟨.afterLoop, early, spec⟩ sub stmts).attr,
+      t.cat = .type ∧ t.name = n ∧ g.cat = .iface ∧ g.name = n ∧ t.perm = q ∧ g.perm = q := by
+  obtain ⟨pt, it, hTm⟩ := mem_entsFrom stmts (init sub).perm false _ hT
+  obtain ⟨pg, ig, hGm⟩ := mem_entsFrom stmts (init sub).perm false _ hG
+  obtain ⟨t0, ht0, htc, htn⟩ : ∃ e0 ∈ mkEnts pt pt it (.typeDef n tattrs body), e0.cat = .type ∧ e0.name = n :=
+    ⟨_, List.mem_singleton.2 rfl, rfl, rfl⟩
+  obtain ⟨g0, hg0, hgc, hgn⟩ : ∃ e0 ∈ mkEnts pg pg ig (.iface .generic n ps rs), e0.cat = .iface ∧ e0.name = n :=
+    ⟨_, List.mem_singleton.2 rfl, rfl, rfl⟩
+  obtain ⟨ht1, ht2⟩ := afterLoop_same_name early spec sub stmts n q hstmt hprot t0 (hTm _ ht0) (by rw [htc]; decide) htn
+  obtain ⟨hg1, hg2⟩ := afterLoop_same_name early spec sub stmts n q hstmt hprot g0 (hGm _ hg0) (by rw [hgc]; decide) hgn
+  exact ⟨_, ht1, _, hg1, by simpa using htc, by simpa using htn, by simpa using hgc, by simpa using hgn, ht2, hg2⟩
+
+/-- The same for a generic interface that carries the name of one of its specific module procedures (legal:
+    F2018 15.4.3.4.1): with the repaired deletion order the procedure `n` and the generic `n` both get the
+    accessibility of the access statement naming `n`. -/
+theorem self_named_generic_access_statement_repaired (early spec : Bool) (stmts : List Stmt) (n : Str) (f : Bool)
+    (ps rs : List Str) (q : Perm) (pre post : List Stmt)
+    (hS : stmts = pre ++ .proc f n :: post) (hc : Stmt.contains ∈ pre)
+    (hG : Stmt.iface .generic n ps rs ∈ stmts)
+    (hstmt : (entriesFor n (stmtEntries stmts)).filterMap accessWord = [q])
+    (hprot : Attr.acc .prot ∉ entriesFor n (stmtEntries stmts)) :
+    ∃ t ∈ (runUnit ⟨.afterLoop, early, spec⟩ false stmts).attr, ∃ g ∈ (runUnit ⟨.afterLoop, early, spec⟩ false stmts).attr,
+      t.cat = (if f then .func else .sub) ∧ t.name = n ∧ g.cat = .iface ∧ g.name = n ∧ t.perm = q ∧ g.perm = q := by
+  obtain ⟨pg, ig, hGm⟩ := mem_entsFrom stmts (init false).perm false _ hG
+  obtain ⟨g0, hg0, hgc, hgn⟩ : ∃ e0 ∈ mkEnts pg pg ig (.iface .generic n ps rs), e0.cat = .iface ∧ e0.name = n :=
+    ⟨_, List.mem_singleton.2 rfl, rfl, rfl⟩
+  have hinc : (false || hasContains pre) = true := by simpa [hasContains] using hc
+  obtain ⟨t0, ht0, htc, htn, _⟩ := mkEnts_declares (lastBare (init false).perm pre) (false || hasContains pre) (.proc f n)
+    (fun _ => hinc) ((if f then .func else .sub), n, []) (by simp [declares])
+  simp only at htc htn
+  have ht0' : t0 ∈ entsFrom (init false).perm false stmts := by
+    rw [hS, entsFrom_append]
+    exact List.mem_append_right _ (mkEnts_sub_entsFrom _ _ _ post t0 ht0)
+  obtain ⟨ht1, ht2⟩ := afterLoop_same_name early spec false stmts n q hstmt hprot t0 ht0'
+    (by rw [htc]; cases f <;> decide) htn
+  obtain ⟨hg1, hg2⟩ := afterLoop_same_name early spec false stmts n q hstmt hprot g0 (hGm _ hg0) (by rw [hgc]; decide) hgn
+  exact ⟨_, ht1, _, hg1, by simpa using htc, by simpa using htn, by simpa using hgc, by simpa using hgn, ht2, hg2⟩
+
+/-- **Constructor idiom, constructor step moved before the export tables.**  With the second candidate repair
+    (`ctorEarly`) every interface that carries the name of a derived type of the unit has, in the entity list
+    the export tables are built from, the permission of a type of that name - whatever gave the type its
+    accessibility (attribute, access statement, default) and whatever the deletion order. -/
+theorem constructor_export_early (d : DelOrder) (spec : Bool) (sub : Bool) (stmts : List Stmt) :
+    ∀ g ∈ (runUnit ⟨d, true, spec⟩ sub stmts).pre, g.cat = .iface →
+      (∃ t ∈ (runUnit ⟨d, true, spec⟩ sub stmts).pre, t.cat = .type ∧ t.name = g.name) →
+      ∃ t ∈ (runUnit ⟨d, true, spec⟩ sub stmts).pre, t.cat = .type ∧ t.name = g.name ∧ g.perm = t.perm := by
+  simp only [runUnit, finish, map_readKids, if_true]
+  exact ctorPass_takes_type _
+
+/-- **Known defects (one identifier, two entities; code as it is).**
+    (1) `private` / `public :: t` / `type t` / `interface t`: with the per-entity deletion the type takes the
+    statement and the interface of the same name never sees it; when `process_attribs` returns the interface is
+    still private, so `pub_procs` does not export the constructor `t` although `pub_types` exports the type `t`.
+    `correlate` repairs the stored permission afterwards (`ents`), not the export tables.  With the repaired
+    deletion order, or with the constructor step before the export tables, both tables export `t`.
+    (2) `private` / `public :: s` / `interface s; module procedure s` / `subroutine s`: the subroutine takes the
+    statement, the generic `s` stays private - for good (no constructor step), and `pub_procs` exports nothing
+    (the interface replaces the procedure under the key `s`).  Repaired deletion order: both public, exported.
+    (3) `type, private :: t` / `interface t` in a default-public module: the access attribute reaches the
+    constructor only in `correlate`, `pub_procs` exports the private `t`; only moving the constructor step
+    before the export tables repairs that. -/
+theorem constructor_access_statement_witness :
+    ((runUnit asIs false [.bare .priv, .access (.acc .pub) ["t".toList], .typeDef "t".toList [] [],
+        .iface .generic "t".toList [] ["f".toList]]).attr.map (fun e => (e.cat, e.perm)) = [(.type, .pub), (.iface, .priv)]) ∧
+    ((runUnit asIs false [.bare .priv, .access (.acc .pub) ["t".toList], .typeDef "t".toList [] [],
+        .iface .generic "t".toList [] ["f".toList]]).exports = [(.types, "t".toList)]) ∧
+    ((runUnit asIs false [.bare .priv, .access (.acc .pub) ["t".toList], .typeDef "t".toList [] [],
+        .iface .generic "t".toList [] ["f".toList]]).ents.map (fun e => (e.cat, e.perm)) = [(.type, .pub), (.iface, .pub)]) ∧
+    ((runUnit ⟨.afterLoop, false, false⟩ false [.bare .priv, .access (.acc .pub) ["t".toList], .typeDef "t".toList [] [],
+        .iface .generic "t".toList [] ["f".toList]]).exports = [(.procs, "t".toList), (.types, "t".toList)]) ∧
+    ((runUnit ⟨.perEntity, true, false⟩ false [.bare .priv, .access (.acc .pub) ["t".toList], .typeDef "t".toList [] [],
+        .iface .generic "t".toList [] ["f".toList]]).exports = [(.procs, "t".toList), (.types, "t".toList)]) ∧
+    ((runUnit asIs false [.bare .priv, .access (.acc .pub) ["s".toList], .iface .generic "s".toList [] ["s".toList],
+        .contains, .proc false "s".toList]).ents.map (fun e => (e.cat, e.perm)) = [(.iface, .priv), (.sub, .pub)]) ∧
+    ((runUnit asIs false [.bare .priv, .access (.acc .pub) ["s".toList], .iface .generic "s".toList [] ["s".toList],
+        .contains, .proc false "s".toList]).exports = []) ∧
+    ((runUnit ⟨.afterLoop, false, false⟩ false [.bare .priv, .access (.acc .pub) ["s".toList],
+        .iface .generic "s".toList [] ["s".toList], .contains, .proc false "s".toList]).ents.map (fun e => (e.cat, e.perm))
+        = [(.iface, .pub), (.sub, .pub)]) ∧
+    ((runUnit ⟨.afterLoop, false, false⟩ false [.bare .priv, .access (.acc .pub) ["s".toList],
+        .iface .generic "s".toList [] ["s".toList], .contains, .proc false "s".toList]).exports = [(.procs, "s".toList)]) ∧
+    ((runUnit ⟨.afterLoop, false, false⟩ false [.typeDef "t".toList [.acc .priv] [], .iface .generic "t".toList [] ["f".toList]]).exports
+        = [(.procs, "t".toList)]) ∧
+    ((runUnit ⟨.afterLoop, true, false⟩ false [.typeDef "t".toList [.acc .priv] [], .iface .generic "t".toList [] ["f".toList]]).exports
+        = []) := by
   decide
 
+/-- **What the module hands to other scopes.**  The export tables `pub_vars`, `pub_types`, `pub_absints` (built in
+    `_cleanup` from the permissions `process_attribs` left; what every `use` of the module receives) list a
+    variable / named constant / derived type / abstract interface exactly when Fortran makes it accessible - under
+    the hypotheses of `access_correct_partial` (in particular outside the late-bare-private class), in every variant.
+    (`pub_procs` is a dict keyed by name into which interfaces and interface bodies are merged; it is compared
+    with the implementation on every run and has the witnesses above, no theorem.) -/
+theorem export_correct_partial (v : Variant) (pre post : List Stmt) (d : Stmt) (c : Cat) (n : Str) (attrs : List Attr)
+    (hx : (c, n, attrs) ∈ declares d)
+    (hnames : NamesOnce (pre ++ d :: post))
+    (hbare : BareLegal (pre ++ d :: post))
+    (hproc : isProc d = true → Stmt.contains ∈ pre)
+    (hone : OneAccessSpec (pre ++ d :: post) attrs n)
+    (hprot : hasProtected (pre ++ d :: post) attrs n = false)
+    (hlate : ¬ LateDefault (pre ++ d :: post) post attrs n)
+    (htab : tabOf c ≠ .procs) :
+    (tabOf c, n) ∈ (runUnit v false (pre ++ d :: post)).exports ↔ fortranAccess (pre ++ d :: post) attrs n ≠ .priv := by
+  obtain ⟨e, he, hc, hn, hp⟩ := access_correct_partial v pre post d c n attrs hx hnames hbare hproc hone hprot hlate
+  have hnd := runUnit_ents_nodup v false _ hnames
+  have hex : (runUnit v false (pre ++ d :: post)).exports = exportsOf (runUnit v false (pre ++ d :: post)).ents := by
+    rw [← runUnit_pre v false _ hnames]; rfl
+  rw [hex, mem_exportsOf_nonprocs _ _ _ htab]
+  have hval : fortranAccess (pre ++ d :: post) attrs n = .priv ∨ fortranAccess (pre ++ d :: post) attrs n = .pub := by
+    unfold fortranAccess
+    rw [hprot]
+    split <;> simp
+  constructor
+  · rintro ⟨e', he', _, hn', hp'⟩
+    have := eq_of_nodup_map (·.name) _ hnd e' e he' he (by rw [hn', hn])
+    subst this
+    rw [hp] at hp'
+    intro hpriv
+    rw [hpriv] at hp'
+    revert hp'; decide
+  · intro hne
+    refine ⟨e, he, by rw [hc], hn, ?_⟩
+    rw [hp]
+    rcases hval with h | h
+    · exact absurd h hne
+    · rw [h]; decide
 
 /-- **Components.**  In any derived-type definition whose component part is `pre ++ [component declaration] ++ ...`
     (the `private` statement, if any, standing before the components as the syntax requires), every declared
@@ -289,14 +527,14 @@ example :
 /-- **Private types stay private.**  A type declared `type, private :: t` (and, legally, not named in an access
     statement) is private whatever the module default is and wherever a bare `public`/`private` stands -
     the late-default defect cannot touch it. -/
-theorem private_type_stays_private (pre post : List Stmt) (n : Str) (attrs : List Attr) (body : List TStmt)
+theorem private_type_stays_private (v : Variant) (pre post : List Stmt) (n : Str) (attrs : List Attr) (body : List TStmt)
     (hattr : explicitOf attrs = some .priv)
     (hnames : NamesOnce (pre ++ .typeDef n attrs body :: post))
     (hbare : BareLegal (pre ++ .typeDef n attrs body :: post))
     (hone : OneAccessSpec (pre ++ .typeDef n attrs body :: post) attrs n)
     (hprot : hasProtected (pre ++ .typeDef n attrs body :: post) attrs n = false) :
-    ∃ e ∈ (runUnit false (pre ++ .typeDef n attrs body :: post)).ents, e.cat = .type ∧ e.name = n ∧ e.perm = .priv := by
-  obtain ⟨e, he, hc, hn, hp⟩ := access_correct_partial pre post (.typeDef n attrs body) .type n attrs
+    ∃ e ∈ (runUnit v false (pre ++ .typeDef n attrs body :: post)).ents, e.cat = .type ∧ e.name = n ∧ e.perm = .priv := by
+  obtain ⟨e, he, hc, hn, hp⟩ := access_correct_partial v pre post (.typeDef n attrs body) .type n attrs
     (by simp [declares]) hnames hbare (by intro h; cases h) hone hprot (by intro h; have h2 := h.2.1; rw [hattr] at h2; cases h2)
   refine ⟨e, he, hc, hn, ?_⟩
   rw [hp]
@@ -305,14 +543,16 @@ theorem private_type_stays_private (pre post : List Stmt) (n : Str) (attrs : Lis
 /-- The constructor idiom (an interface named like the type): the interface takes the type's permission in
     `correlate`, the type keeps its own. -/
 example :
-    (runUnit false [.bare .priv, .typeDef "t".toList [.acc .pub] [], .iface .generic "t".toList ["f".toList]]).ents.map
+    (runUnit asIs false [.bare .priv, .typeDef "t".toList [.acc .pub] [], .iface .generic "t".toList [] ["f".toList]]).ents.map
       (fun e => (e.cat, e.perm)) = [(.type, .pub), (.iface, .pub)] := by decide
 
 /-- **The generated tables have the shape the proofs use** (re-checked by the kernel whenever
     ford/sourceform.py changes): `process_attribs` visits every entity list exactly once, every word list
     recognises `public` and `private`, variables and bindings inherit the *child* permission, the other
     constructors the container's own, a type's children start public and restart public at CONTAINS, a
-    submodule starts private, a bare statement updates both permissions. -/
+    submodule starts private, a bare statement updates both permissions; the variables' loop of `process_attribs`
+    comes last; public and protected entities are exported; a procedure reads its parent's permission exactly
+    when the parent is a non-generic interface (not for a generic interface, not for a module). -/
 theorem generated_tables_sound :
     attribPasses.Nodup ∧ (∀ c : Cat, c ∈ attribPasses) ∧
     (∀ w ∈ [bareWords, varAttrWords, typeAttrWords, bindAttrWords, applyWords, applyVarWords],
@@ -320,7 +560,9 @@ theorem generated_tables_sound :
     srcVariables = .child ∧ srcBoundProc = .child ∧
     srcType = .self ∧ srcInterface = .self ∧ srcSubroutine = .self ∧ srcFunction = .self ∧
     typeChildInit = .pub ∧ containsReset = .pub ∧ submoduleInit = .priv ∧ moduleInit = .pub ∧
-    bareSetsChild = true ∧ bareSetsSelf = true ∧ publicWord = .pub := by
+    bareSetsChild = true ∧ bareSetsSelf = true ∧ publicWord = .pub ∧
+    attribPasses = itemPasses ++ [.var] ∧ exportWords = [.pub, .prot] ∧
+    readWrapper = true ∧ readGeneric = false ∧ readModule = false := by
   refine ⟨by decide, fun c => by cases c <;> decide, by decide, ?_⟩
   decide
 
